@@ -22,23 +22,43 @@
 (*         binds or references (Python's closure rule).  It is used to     *)
 (*         check the search on the model (SearchSound, ...) and to name    *)
 (*         the cause where the design itself departs from Req (cls).       *)
+(* eval's namespace arguments are modelled as name -> value dictionaries   *)
+(* (absent / None / full / empty / without the probed name) with Python's  *)
+(* defaulting and lookup order, and the '__builtins__' key eval leaves in   *)
+(* the globals dictionary it was given (ReqMark).                           *)
 (* The verdict on the real code is always taken against Req.               *)
 (***************************************************************************)
 EXTENDS Integers, Sequences, FiniteSets, TLC, Json
 
 CONSTANTS MaxDepth,   \* nesting depth of control statements around the call
           Forms,      \* argument forms of eval to enumerate
+          DeepForms,  \* ... the ones enumerated under two or more levels of nesting as well
           Hosts       \* subset of {"function", "method"}
 
 Kinds == {"if", "for", "while"}
 Callees == {"eval", "locals", "globals", "super"}
-AllForms == {"expr", "expr,g", "expr,g,l", "expr,None", "expr,None,None", "expr,None,l"}
-ASSUME Forms \subseteq AllForms /\ Hosts \subseteq {"function", "method"} /\ MaxDepth \in 0..3
+
+(* ---- argument forms of eval(expr[, globals[, locals]]) ------------------------ *)
+(* Each namespace argument is absent, None, or a dictionary: "full" binds every    *)
+(* name of the program (to its value + 1000 in the globals dictionary, + 2000 in   *)
+(* the locals dictionary), "empty" is {}, "other" binds every name except the      *)
+(* probed one.  A form is named by its argument list: expr,g,l / expr,{} /         *)
+(* expr,None,lo / ...                                                              *)
+NsKinds == {"absent", "None", "full", "empty", "other"}
+FormPairs == {<<"absent", "absent">>} \cup ((NsKinds \ {"absent"}) \X NsKinds)
+ArgText(k, role) == CASE k = "None" -> "None" [] k = "full" -> role [] k = "empty" -> "{}" [] k = "other" -> role \o "o"
+FormName(p) == "expr" \o (IF p[1] = "absent" THEN "" ELSE "," \o ArgText(p[1], "g"))
+                      \o (IF p[2] = "absent" THEN "" ELSE "," \o ArgText(p[2], "l"))
+AllForms == {FormName(p) : p \in FormPairs}
+PairOf(f) == CHOOSE p \in FormPairs : FormName(p) = f
+Given(k) == k \notin {"absent", "None"}                  \* an actual dictionary is passed
+ASSUME Forms \subseteq AllForms /\ DeepForms \subseteq Forms /\ Hosts \subseteq {"function", "method"} /\ MaxDepth \in 0..3
 
 (* ---- the user program ---------------------------------------------------- *)
 AName(j) == <<"a0", "a1", "a2", "a3">>[j + 1]          \* assigned in the body of level j (0 = function body)
 IName(j) == <<"i1", "i2", "i3">>[j]                     \* target of the for loop of level j
 NName(j) == <<"n1", "n2", "n3">>[j]                     \* counter of the while loop of level j
+AllNames == {"x", "G", "a0", "a1", "a2", "a3", "i1", "i2", "i3", "n1", "n2", "n3"}
 ValueOf(v) ==
   CASE v = "x" -> 1 [] v = "G" -> 7
     [] v = "a0" -> 10 [] v = "a1" -> 11 [] v = "a2" -> 12 [] v = "a3" -> 13
@@ -92,7 +112,7 @@ PickProbe ==
   /\ \E c \in Callees :
        /\ callee' = c
        /\ (c = "super") => host = "method"
-       /\ IF c = "eval" THEN form' \in Forms ELSE form' = ""
+       /\ IF c = "eval" THEN form' \in (IF Len(ks) < 2 THEN Forms ELSE DeepForms) ELSE form' = ""
        /\ IF c = "eval" THEN /\ tv' \in FrameVars(ks) \cup {"G"} /\ refd' \in BOOLEAN
           ELSE IF c = "locals" THEN
                (* one non-own variable may be referenced in the innermost body, or none *)
@@ -130,12 +150,27 @@ Resolved == phase = "resolved"
 Found == stack[result]
 D == Len(ks)
 
-(* Python: the call executes in F's frame *)
-ReqEval ==
-  CASE form \in {"expr", "expr,None", "expr,None,None"} -> Val(ValueOf(tv))
-    [] form = "expr,g" -> Val(ValueOf(tv) + 1000)          \* g maps every name to value + 1000
-    [] form \in {"expr,g,l", "expr,None,l"} -> Val(ValueOf(tv) + 2000)   \* l maps every name to value + 2000
+GK == IF callee = "eval" THEN PairOf(form)[1] ELSE "absent"     \* kind of the globals argument
+LK == IF callee = "eval" THEN PairOf(form)[2] ELSE "absent"     \* kind of the locals argument
+(* the dictionaries the program passes: name -> value *)
+NoNames == [v \in {} |-> 0]
+Ns(kind, off) == CASE kind = "full" -> [v \in AllNames |-> ValueOf(v) + off]
+                   [] kind = "empty" -> NoNames
+                   [] kind = "other" -> [v \in AllNames \ {tv} |-> ValueOf(v) + off]
+ModuleNs == [v \in {"G"} |-> ValueOf("G")]                      \* F's module (the probes only mention G)
+(* name resolution of the evaluated expression: locals, then globals (no probe is a builtin) *)
+Lookup(g, l) == IF tv \in DOMAIN l THEN Val(l[tv]) ELSE IF tv \in DOMAIN g THEN Val(g[tv]) ELSE Exc("NameError")
+
+(* Python: the call executes in F's frame.  eval's own defaulting: globals absent or None -> the  *)
+(* frame's globals and (locals absent or None) the frame's locals; a globals dictionary without    *)
+(* locals serves as both; whatever dictionary is given is used as it is - also an empty one.       *)
 ReqEnv == [v \in FrameVars(ks) |-> ValueOf(v)]
+ReqEval ==
+  LET g == IF Given(GK) THEN Ns(GK, 1000) ELSE ModuleNs
+      l == IF Given(LK) THEN Ns(LK, 2000) ELSE IF Given(GK) THEN g ELSE ReqEnv
+  IN Lookup(g, l)
+(* eval stores '__builtins__' into the dictionary it is given as globals (and into no other) *)
+ReqMark == IF callee = "eval" /\ Given(GK) THEN {"g"} ELSE {}
 ReqOut == CASE callee = "eval" -> ReqEval
             [] callee = "locals" -> Val(Cardinality(FrameVars(ks)))
             [] callee = "globals" -> Val(ValueOf("G"))       \* F's module dictionary (identity checked by the harness)
@@ -143,25 +178,24 @@ ReqOut == CASE callee = "eval" -> ReqEval
 
 (* the overloads as written, on the model stack *)
 InLocals == tv \in Found.names
-ImplEval ==
-  CASE form = "expr" -> IF InLocals \/ (tv = "G" /\ Found.mod = "user") THEN Val(ValueOf(tv)) ELSE Exc("NameError")
-    [] form = "expr,g" -> IF InLocals THEN Val(ValueOf(tv)) ELSE Val(ValueOf(tv) + 1000)   \* (src, g, frame.f_locals)
-    [] form = "expr,g,l" -> Val(ValueOf(tv) + 2000)
-    [] form = "expr,None" -> IF InLocals THEN Val(ValueOf(tv)) ELSE Exc("NameError")       \* (src, None, frame.f_locals)
-    [] form = "expr,None,None" -> Exc("NameError")                                           \* (src, None, None)
-    [] form = "expr,None,l" -> Val(ValueOf(tv) + 2000)
+FrameGlobals == IF Found.mod = "user" THEN ModuleNs ELSE NoNames
+FrameLocals == [v \in Found.names |-> ValueOf(v)]
+ImplEval ==      \* eval_in_original_context
+  LET g == IF Given(GK) THEN Ns(GK, 1000) ELSE FrameGlobals          \* if globals_ is None: globals_ = ctx_frame.f_globals
+      l == IF Given(LK) THEN Ns(LK, 2000)
+           ELSE IF ~Given(GK) THEN FrameLocals                        \*   if locals_ is None: locals_ = ctx_frame.f_locals
+           ELSE g                                                     \* f(args[0], globals_): the builtin takes it for both
+  IN Lookup(g, l)
+ImplMark == IF callee = "eval" /\ Given(GK) THEN {"g"} ELSE {}      \* the caller's own dictionary object is handed on
 ImplEnvNames == Found.names \cap FrameVars(ks)
 ImplOut == IF result = 0 THEN Exc("AssertionError")
            ELSE CASE callee = "eval" -> ImplEval
                   [] callee = "locals" -> Val(Cardinality(ImplEnvNames))
                   [] callee = "globals" -> IF Found.mod = "user" THEN Val(ValueOf("G")) ELSE Exc("KeyError")
                   [] callee = "super" -> IF Found.cls THEN Val(5) ELSE Exc("KeyError")
-Cls == IF ImplOut = ReqOut THEN ""
-       ELSE CASE callee = "eval" /\ form = "expr" -> "variable-not-referenced-in-body"
-              [] callee = "eval" /\ form = "expr,g" -> "frame-locals-shadow-explicit-globals"
-              [] callee = "eval" /\ form \in {"expr,None", "expr,None,None"} ->
-                   (* with None defaulted correctly the variable would still have to be in the found frame *)
-                   IF InLocals \/ tv = "G" THEN "none-globals" ELSE "variable-not-referenced-in-body"
+Cls == IF ImplOut = ReqOut /\ ImplMark = ReqMark THEN ""
+       ELSE CASE callee = "eval" /\ ~Given(GK) /\ ~Given(LK) /\ ~InLocals /\ tv # "G" ->
+                   "variable-not-referenced-in-body"               \* the found frame's f_locals serve as locals
               [] callee = "locals" -> "variables-not-referenced-in-body"
               [] OTHER -> "unexpected"
 
@@ -173,14 +207,21 @@ InnermostIsCallSite == (Resolved /\ Innermost) =>
                           (IF D = 0 THEN Found.kind = "user" ELSE Found.kind = "body" /\ \A i \in (result + 1)..Len(stack) : stack[i].kind # "body")
 (* super resolves against the function frame, which holds __class__ and the first argument *)
 OutermostIsFunction == (Resolved /\ ~Innermost) => (Found.kind = "user" /\ Found.cls)
-(* at depth 0 the design meets the requirement for every form that passes globals explicitly or not at all *)
-DepthZeroComplete == (Resolved /\ D = 0 /\ form \notin {"expr,None", "expr,None,None", "expr,g"}) => Cls = ""
+(* at depth 0 the design meets the requirement for every form *)
+DepthZeroComplete == (Resolved /\ D = 0) => Cls = ""
+(* a namespace the caller passes is used as it is (also an empty one): the frame is consulted only for *)
+(* what eval itself would take from the calling frame                                                  *)
+NamespacesHonoured == (Resolved /\ callee = "eval" /\ (Given(GK) \/ Given(LK))) =>
+                         /\ ImplOut = ReqOut /\ ImplMark = ReqMark
+                         /\ (Given(GK) /\ tv \notin DOMAIN Ns(GK, 1000) /\ (Given(LK) => tv \notin DOMAIN Ns(LK, 2000)))
+                              => ImplOut = Exc("NameError")
 (* design divergences have a named cause *)
 CausesNamed == Resolved => Cls # "unexpected"
 
 (* ---- expectations for the harness ------------------------------------------------ *)
 Expect == Resolved =>
   PrintT(ToJson([ks |-> ks, host |-> host, callee |-> callee, form |-> form, tv |-> tv, refd |-> refd,
-                 req |-> ReqOut, impl |-> ImplOut, cls |-> Cls,
+                 gk |-> GK, lk |-> LK, req |-> ReqOut, impl |-> ImplOut, cls |-> Cls,
+                 reqmark |-> ReqMark, implmark |-> ImplMark,
                  reqenv |-> ReqEnv, implenv |-> ImplEnvNames, found |-> Found.kind]))
 =============================================================================
